@@ -805,6 +805,18 @@ static void c03Nudge(Rng &rng, CaseResult &r) {
   PlacementCallback cb = [&](PlacementStep) {
     ++ncb;
     if (nudges > 0 && cbErr.empty()) { std::string e = fixedAsExpected(c); if (!e.empty()) cbErr = "callback " + std::to_string(ncb) + ": " + e; }
+    if (ncb == nudgeAt) {
+      // structural setters are refused while the call runs; a refusal must not have touched anything
+      Circuit before = c;
+      try { c.setupRows(Rectangle(0, 50, 0, 40), std::max(1, c.rows_[0].height())); } catch (const std::exception &) {}
+      try { c.setRows({}); } catch (const std::exception &) {}
+      try { c.setNets({0}, {}, {}, {}); } catch (const std::exception &) {}
+      try { c.setCellIsFixed(std::vector<bool>(c.nbCells(), false)); } catch (const std::exception &) {}
+      try { c.setCellIsObstruction(std::vector<bool>(c.nbCells(), false)); } catch (const std::exception &) {}
+      try { c.setCellRowPolarity(std::vector<CellRowPolarity>(c.nbCells(), CellRowPolarity::SAME)); } catch (const std::exception &) {}
+      std::string fdr = frameDiff(before, c, true);
+      if (!fdr.empty() && cbErr.empty()) cbErr = "callback " + std::to_string(ncb) + ": a structural setter refused during the call changed the circuit: " + fdr;
+    }
     if (ncb == nudgeAt || (nudges > 0 && rng.chance(0.2))) {
       std::vector<int> x = c.cellX_, y = c.cellY_;
       std::vector<CellOrientation> oo = c.cellOrientation_;
@@ -825,7 +837,7 @@ static void c03Nudge(Rng &rng, CaseResult &r) {
   r.count(ok ? "returned" : "threw");
   r.count("nudges", nudges);
   if (nudges > 0) {
-    if (!cbErr.empty()) r.fail("C03:fixed-cell-moved-back-by-the-stage", std::string(sn[stage]) + " " + cbErr);
+    if (!cbErr.empty()) r.fail(cbErr.find("refused during the call") != std::string::npos ? "C03:frame-changed-by-a-refused-setter" : "C03:fixed-cell-moved-back-by-the-stage", std::string(sn[stage]) + " " + cbErr);
     std::string e = fixedAsExpected(c);
     if (!e.empty()) r.fail("C03:fixed-cell-moved-back-by-the-stage", std::string(sn[stage]) + (ok ? " on return: " : " after it threw: ") + e);
   }
